@@ -5,7 +5,7 @@
 # at scaled clock frequencies (windows of a few to tens of cycles; one ping configuration at 25 MHz keeps the real
 # 1..4-cycle burst window and crosses its multi-million-cycle repeat window with C-side holds).  One action = one
 # envelope segment (signalling present for d cycles / absent for g cycles), d and g from menus that straddle every window
-# edge by -2..+2 cycles, plus 1..2-cycle glitches; BFS over all segment sequences up to a depth of 4-5 bursts.
+# edge by -2..+2 cycles, plus 1..2-cycle glitches; BFS over all segment sequences up to a depth of 3-5 bursts.
 #
 # Oracle (from the statement; windows taken from the pattern object's documented t_min/t_max, exact rational arithmetic):
 #   a signal seen high at d consecutive clock edges lasted between d-1 and d+1 clock periods, so a burst of d cycles is
@@ -53,16 +53,16 @@ def configs(tier):
          dict(kind="generator", pattern="polling", f=25e6)]
     if tier == "quick":
         return q
-    t = [dict(kind="detector", pattern="polling", f=10e6, depth=10, menu="wide"),
-         dict(kind="detector", pattern="polling", f=5e6, depth=10, menu="wide"),
-         dict(kind="detector", pattern="polling", f=12.5e6, depth=10, menu="wide"),
+    t = [dict(kind="detector", pattern="polling", f=10e6, depth=9, menu="wide"),
+         dict(kind="detector", pattern="polling", f=5e6, depth=9, menu="wide"),
+         dict(kind="detector", pattern="polling", f=12.5e6, depth=9, menu="wide"),
          dict(kind="detector", pattern="polling", f=3.3e6, depth=10, menu="wide"),
          dict(kind="detector", pattern="polling", f=25e6, depth=9, menu="edges"),
          dict(kind="detector", pattern="ping", f=250.0, depth=10, menu="wide"),
          dict(kind="detector", pattern="ping", f=1000.0, depth=9, menu="edges"),
-         dict(kind="detector", pattern="ping", f=25e6, depth=7, menu="few"),
-         dict(kind="detector", pattern="reset", f=500.0, depth=8, menu="wide"),
-         dict(kind="detector", pattern="reset", f=250.0, depth=8, menu="wide"),
+         dict(kind="detector", pattern="ping", f=25e6, depth=6, menu="few"),
+         dict(kind="detector", pattern="reset", f=500.0, depth=6, menu="wide"),
+         dict(kind="detector", pattern="reset", f=250.0, depth=6, menu="wide"),
          dict(kind="detector", pattern="reset", f=1000.0, depth=6, menu="edges"),
          dict(kind="generator", pattern="polling", f=10e6),
          dict(kind="generator", pattern="polling", f=5e6),
@@ -267,7 +267,7 @@ class DetectorSpec(Spec):
     def goals(self):
         g = ["detect", "burst_ok", "burst_short", "burst_long"]
         if self.periodic: g += ["period_ok", "period_short", "period_long"]
-        if self.cfg["pattern"] == "ping" and self.a == 1: g.remove("burst_short")
+        if self.a == 1: g.remove("burst_short")            # no burst can be shorter than one cycle
         return g
 
 
